@@ -81,6 +81,7 @@ func runC14(c *Ctx) {
 	r.Doc("A5", "Fair: base = dividend/n, remainder = dividend - base*n, n = len(priorities), no early exit", 2)
 	r.Doc("A4", "v1 and v2 implementations have equal canonical effect summaries", 3)
 	ds := dividerFns(c)
+	fairOK := true
 	for _, d := range ds {
 		if d.fair == nil || d.rate == nil || d.sum == nil {
 			r.Fail("A0", d.p.Name+":dividers", "-", "UNRESOLVED-ANCHOR: Fair/Rate divider or SumPriorities not found")
@@ -93,11 +94,11 @@ func runC14(c *Ctx) {
 		checkA1(c, d.p, d.fair)
 		checkA1(c, d.p, d.rate)
 		checkA2(c, d.p, d.rate)
-		checkA35(c, d.p, d.fair)
+		fairOK = checkA35(c, d.p, d.fair) && fairOK
 	}
-	checkA4(c, ds[0].p, ds[0].fair, ds[1].p, ds[1].fair, "Fair")
-	checkA4(c, ds[0].p, ds[0].rate, ds[1].p, ds[1].rate, "Rate")
-	checkA4(c, ds[0].p, ds[0].sum, ds[1].p, ds[1].sum, "SumPriorities")
+	checkA4(c, ds[0].p, ds[0].fair, ds[1].p, ds[1].fair, "Fair", fairOK)
+	checkA4(c, ds[0].p, ds[0].rate, ds[1].p, ds[1].rate, "Rate", false)
+	checkA4(c, ds[0].p, ds[0].sum, ds[1].p, ds[1].sum, "SumPriorities", false)
 }
 
 func checkA1(c *Ctx, p *Prog, fn *ssa.Function) {
@@ -110,6 +111,27 @@ func checkA1(c *Ctx, p *Prog, fn *ssa.Function) {
 		for _, root := range ai.Roots(cr.in.Map) {
 			if root.Kind == "param" && root.V == ssa.Value(dist) {
 				okMap = true
+			}
+			// (v1) a map made by the divider may stand in for the argument only when the argument
+			// is nil: a non-nil map of the caller, empty or not, is the one the shares are added to
+			if mm, isMake := root.V.(*ssa.MakeMap); isMake && mm.Parent() == fn {
+				underNil := false
+				for _, e := range InstrDomEdges(mm) {
+					iff := e.From.Instrs[len(e.From.Instrs)-1].(*ssa.If)
+					base, neg := condOf(iff.Cond)
+					if bo, isB := base.(*ssa.BinOp); isB && (bo.Op == token.EQL || bo.Op == token.NEQ) {
+						x, y := bo.X, bo.Y
+						if isNilConst(x) {
+							x, y = y, x
+						}
+						if x == ssa.Value(dist) && isNilConst(y) && ((bo.Op == token.EQL) == ((e.Succ == 0) != neg)) {
+							underNil = true
+						}
+					}
+				}
+				if !underNil {
+					problems = append(problems, "the map made at "+p.InstrPos(mm)+" replaces the distribution argument although it is not nil: the shares are not added to the map that was passed")
+				}
 			}
 		}
 		if !okMap {
@@ -293,7 +315,7 @@ func (p *Prog) reachesAnotherCredit(mu *ssa.MapUpdate) bool {
 	return walk(mu.Block(), idx)
 }
 
-func checkA35(c *Ctx, p *Prog, fn *ssa.Function) {
+func checkA35(c *Ctx, p *Prog, fn *ssa.Function) bool {
 	prios, dividend := fn.Params[0], fn.Params[1]
 	credits, problems := p.creditsOf(fn)
 	var p5 []string
@@ -320,10 +342,49 @@ func checkA35(c *Ctx, p *Prog, fn *ssa.Function) {
 		return false
 	}
 	rem := remainderPhi(fn, isRemInit)
-	if rem == nil {
-		p5 = append(p5, "UNDECIDED: the countdown of extra units does not start at dividend - (dividend/n)*n (or dividend % n) with n = len(priorities)")
-	}
+	indexGuarded := false // the extra units are given under `index < remainder` instead of by a countdown
 	nBase, nExtra := 0, 0
+	// extraGuard: block b is entered only when an extra unit is due: the countdown is not zero
+	// (and is reduced by one on the same path), or the index of the visited priority is below the
+	// remainder (the first `remainder` priorities: a prefix by construction)
+	extraGuard := func(b *ssa.BasicBlock, idx ssa.Value, at ssa.Instruction) (ok bool, why string) {
+		edges := DomEdges(b)
+		for _, e := range edges {
+			iff := e.From.Instrs[len(e.From.Instrs)-1].(*ssa.If)
+			if rem != nil {
+				cm := p.NormCmp(iff.Cond, e.Succ == 0)
+				if cm != nil && ((cm.Op == token.LSS && cm.L.String() == "0" && cm.R.V == ssa.Value(rem)) || (cm.Op == token.NEQ && cm.L.V == ssa.Value(rem))) {
+					paired := false
+					for _, fe := range flatPhiEdges(rem) {
+						if bo, isB := fe.v.(*ssa.BinOp); isB && bo.Op == token.SUB && bo.X == ssa.Value(rem) {
+							if k, isK := constDuration(bo.Y); isK && k == 1 {
+								if fe.pred == b || b.Dominates(fe.pred) || bo.Block() == b {
+									paired = true
+								}
+							}
+						}
+					}
+					if !paired {
+						return false, "the extra unit at " + p.InstrPos(at) + " is not paired with remainder-1"
+					}
+					return true, ""
+				}
+			}
+			base, neg := condOf(iff.Cond)
+			if bo, isB := base.(*ssa.BinOp); isB && idx != nil {
+				truth := (e.Succ == 0) != neg
+				x, y, op := bo.X, bo.Y, bo.Op
+				if op == token.GTR {
+					x, y, op = y, x, token.LSS
+				}
+				if op == token.LSS && truth && stripConvValue(x) == idx && isRemInit(y) {
+					indexGuarded = true
+					return true, ""
+				}
+			}
+		}
+		return false, "the extra unit at " + p.InstrPos(at) + " is not guarded by remainder != 0"
+	}
 	for _, cr := range credits {
 		if _, ok := rangeElem(cr.key); !ok {
 			problems = append(problems, "credit at "+p.InstrPos(cr.in)+" is not for the priority being visited")
@@ -344,45 +405,68 @@ func checkA35(c *Ctx, p *Prog, fn *ssa.Function) {
 				}
 			}
 		default:
+			var idxV ssa.Value
+			if cr.key != nil && cr.key.Op == "index" && len(cr.key.Args) == 2 {
+				idxV = cr.key.Args[1].V
+			}
 			if k, ok := symConstInt(cr.amount); ok && k == 1 {
 				nExtra++
-				if rem == nil {
-					continue
+				// guarded by remainder != 0 and paired with remainder-1 on the same path, or by index < remainder
+				if okg, why := extraGuard(cr.in.Block(), idxV, cr.in); !okg {
+					problems = append(problems, why)
 				}
-				// guarded by remainder != 0 and paired with remainder-1 on the same path
-				guarded := false
-				for _, e := range InstrDomEdges(cr.in) {
-					iff := e.From.Instrs[len(e.From.Instrs)-1].(*ssa.If)
-					cm := p.NormCmp(iff.Cond, e.Succ == 0)
-					if cm != nil && ((cm.Op == token.LSS && cm.L.String() == "0" && cm.R.V == ssa.Value(rem)) || (cm.Op == token.NEQ && cm.L.V == ssa.Value(rem))) {
-						guarded = true
-					}
-				}
-				if !guarded {
-					problems = append(problems, "the extra unit at "+p.InstrPos(cr.in)+" is not guarded by remainder != 0")
-				}
-				paired := false
-				for i, e := range rem.Edges {
-					if bo, ok := e.(*ssa.BinOp); ok && bo.Op == token.SUB && bo.X == ssa.Value(rem) {
-						if k, isK := constDuration(bo.Y); isK && k == 1 {
-							pred := rem.Block().Preds[i]
-							if pred == cr.in.Block() || cr.in.Block().Dominates(pred) {
-								paired = true
+			} else if ph, isPhi := cr.amtV.(*ssa.Phi); isPhi && len(ph.Edges) == 2 {
+				// one credit of `part`, part = base, or base+1 when an extra unit is due
+				baseEdge, extraEdge := -1, -1
+				for i, e := range ph.Edges {
+					es := deepStrip(p.Sym(e))
+					switch {
+					case isBase(es):
+						baseEdge = i
+					case es.Op == "bin" && es.Name == "+":
+						for k2 := 0; k2 < 2; k2++ {
+							if c1, isK := symConstInt(es.Args[k2]); isK && c1 == 1 && isBase(es.Args[1-k2]) {
+								extraEdge = i
 							}
 						}
 					}
 				}
-				if !paired {
-					problems = append(problems, "the extra unit at "+p.InstrPos(cr.in)+" is not paired with remainder-1")
+				if baseEdge < 0 || extraEdge < 0 {
+					problems = append(problems, fmt.Sprintf("credit of %s at %s is neither the equal share dividend/len(priorities) nor one extra unit", cr.amount, p.InstrPos(cr.in)))
+					continue
+				}
+				nBase++
+				nExtra++
+				for _, e := range InstrDomEdges(cr.in) {
+					if blockInLoop(e.From) {
+						iff := e.From.Instrs[len(e.From.Instrs)-1].(*ssa.If)
+						if cm := p.NormCmp(iff.Cond, true); cm == nil || !strings.Contains(cm.String(), "len(") {
+							problems = append(problems, "the credit at "+p.InstrPos(cr.in)+" is conditional: some priority does not get its equal share")
+						}
+					}
+				}
+				// the base+1 edge comes from a block entered only when an extra unit is due, the base
+				// edge from its sibling
+				if okg, why := extraGuard(ph.Block().Preds[extraEdge], idxV, cr.in); !okg {
+					problems = append(problems, why)
+				}
+				if okg, _ := extraGuard(ph.Block().Preds[baseEdge], idxV, cr.in); okg && ph.Block().Preds[baseEdge] != ph.Block().Preds[extraEdge] {
+					if !ph.Block().Preds[baseEdge].Dominates(ph.Block().Preds[extraEdge]) {
+						problems = append(problems, "the plain share at "+p.InstrPos(cr.in)+" is given where an extra unit is due")
+					}
 				}
 			} else {
 				problems = append(problems, fmt.Sprintf("credit of %s at %s is neither the equal share dividend/len(priorities) nor one extra unit", cr.amount, p.InstrPos(cr.in)))
 			}
 		}
 	}
+	if rem == nil && !indexGuarded {
+		p5 = append(p5, "UNDECIDED: the countdown of extra units does not start at dividend - (dividend/n)*n (or dividend % n) with n = len(priorities)")
+	}
 	if rem != nil {
 		// the countdown never increases: edges are rem or rem-1
-		for _, e := range rem.Edges {
+		for _, fe := range flatPhiEdges(rem) {
+			e := fe.v
 			if e == ssa.Value(rem) || isRemInit(e) {
 				continue
 			}
@@ -411,6 +495,47 @@ func checkA35(c *Ctx, p *Prog, fn *ssa.Function) {
 	}
 	c.R.Check(len(problems) == 0, "A3", p.FnKey(fn), p.Pos(fn.Pos()), "base per priority; one extra unit while the countdown is non-zero", strings.Join(dedup(problems), "; "))
 	c.R.Check(len(p5) == 0, "A5", p.FnKey(fn), p.Pos(fn.Pos()), "base = dividend/n, countdown = dividend - base*n, full loop", strings.Join(dedup(p5), "; "))
+	return len(problems) == 0 && len(p5) == 0
+}
+
+type phiEdge struct {
+	v    ssa.Value
+	pred *ssa.BasicBlock
+}
+
+// flatPhiEdges: the non-phi values that flow into ph, looking through the phis that merely join
+// branches of the loop body (`if c { x-- }` yields phi(x-1, x) before the loop phi).
+func flatPhiEdges(ph *ssa.Phi) []phiEdge {
+	var out []phiEdge
+	seen := map[*ssa.Phi]bool{ph: true}
+	var walk func(x *ssa.Phi)
+	walk = func(x *ssa.Phi) {
+		for i, e := range x.Edges {
+			if inner, ok := e.(*ssa.Phi); ok && inner != ph {
+				if !seen[inner] {
+					seen[inner] = true
+					walk(inner)
+				}
+				continue
+			}
+			out = append(out, phiEdge{e, x.Block().Preds[i]})
+		}
+	}
+	walk(ph)
+	return out
+}
+
+func stripConvValue(v ssa.Value) ssa.Value {
+	for {
+		switch x := v.(type) {
+		case *ssa.Convert:
+			v = x.X
+		case *ssa.ChangeType:
+			v = x.X
+		default:
+			return v
+		}
+	}
 }
 
 // ---- A4 canonical summaries ----
@@ -667,8 +792,43 @@ func stripMapName(s string) string {
 	return s
 }
 
-func checkA4(c *Ctx, p1 *Prog, f1 *ssa.Function, p2 *Prog, f2 *ssa.Function, name string) {
+// recognised: both implementations were shown (A1, A3, A5) to be the one definition of the divider;
+// how each spells its credits then does not matter, and only what the definition does not cover -
+// the results and the conditions of the early returns - is compared.
+func checkA4(c *Ctx, p1 *Prog, f1 *ssa.Function, p2 *Prog, f2 *ssa.Function, name string, recognised bool) {
 	s1, s2 := p1.effectSummary(f1), p2.effectSummary(f2)
+	if recognised {
+		keep := func(in []string) []string {
+			var out []string
+			seen := map[string]bool{}
+			for _, e := range in {
+				if !strings.HasPrefix(e, "credit ") {
+					out = append(out, e)
+					continue
+				}
+				// of a credit only the guards taken before the loop (empty list, nil map) are kept
+				i := strings.LastIndex(e, " if ")
+				if i < 0 {
+					continue
+				}
+				var atoms []string
+				for _, a := range strings.Split(e[i+4:], " && ") {
+					if strings.Contains(a, "IDX") || strings.Contains(a, "phi{") || strings.Contains(a, "self") {
+						continue
+					}
+					atoms = append(atoms, a)
+				}
+				sort.Strings(atoms)
+				g := "credits under: " + strings.Join(atoms, " && ")
+				if !seen[g] {
+					seen[g] = true
+					out = append(out, g)
+				}
+			}
+			return out
+		}
+		s1, s2 = keep(s1), keep(s2)
+	}
 	var diffs []string
 	m1, m2 := map[string]int{}, map[string]int{}
 	for _, s := range s1 {
